@@ -33,7 +33,8 @@ def make_params(grid):
     np_ = len(grid)
     for p in ADD_ORDER:
         if p < np_:
-            d[NAMES[p]] = [VALUES[p][v] for v in grid[p]]
+            vals = [VALUES[p][v] for v in grid[p]]
+            d[NAMES[p]] = np.array(vals) if p == 2 else vals      # one parameter is given as a numpy array
     d.update(FIXED)
     params = SimulationParameters.create(d)
     for p in reversed(range(np_)):
